@@ -15,6 +15,8 @@ POOL = [
     (["H", "H"], ["H2"], 100), (["H2", "CR"], ["H", "H"], 101), (["H", "C"], ["CH"], 100), (["CH", "O"], ["CO", "H"], 100), (["CO"], ["C", "O"], 100), (["H", "H"], ["H2"], 100), (["e-", "H+"], ["H"], 100),
     # same species as entry 3 on another temperature window, and as entry 4 with another type: not duplicates
     (["CH", "O"], ["CO", "H"], 100, 300.0, 800.0), (["CO"], ["C", "O"], 102),
+    # the same species on both sides as entry 0 resp. each other, with other multiplicities: not duplicates
+    (["H", "H", "H"], ["H2", "H"], 100), (["H", "H"], ["H2", "H"], 100), (["H", "H", "H"], ["H2", "H"], 100),
 ]
 WINDOW = lambda i: (POOL[i][3], POOL[i][4]) if len(POOL[i]) > 3 else (-1.0, -1.0)
 LAUNCH = "import sys; from naunet.console import main; sys.exit(main())"
@@ -52,7 +54,7 @@ def cli_cases():
     cases.append(("remove-species", ["--remove-species", "CH, e-"], [key(i) for i in base if not ({"CH", "e-"} & spec(i))]))
     allowed = {"H", "H2", "C", "CH"}
     cases.append(("reduce-by-species", ["--reduce-by-species", "H,H2, C ,CH"], [key(i) for i in base if spec(i) <= allowed]))
-    cases.append(("reduce+dedup", ["--reduce-by-species", "H,H2", "--remove-duplicate"], [key(0), key(1)]))
+    cases.append(("reduce+dedup", ["--reduce-by-species", "H,H2", "--remove-duplicate"], [k for i, k in ((i, key(i)) for i in base) if spec(i) <= {"H", "H2"} and k not in [key(j) for j in base[:i]]]))
     # appended grain processes: the same edits applied one after another through the API give base + freeze-out of
     # every neutral gas species + desorption of every surface species *then* present (appended in set order)
     kept = [key(i) for i in base]
